@@ -179,6 +179,13 @@ type c10Site struct {
 }
 
 func checkC10(P *core.Program, R *core.Report) {
+	// the prices and health values the guards compare are computed from the accounted pool
+	// (amm balance + perpetual liabilities − custody), like every other price of the system: a
+	// nil accounted-pool keeper silently switches a guard to the raw amm balance, and a bot can
+	// close a position whose stop-loss the market has not reached
+	defer checkKeeperArgsNotNilIn(P, R, "C10-guard-price", []string{"x/leveragelp/", "x/perpetual/"}, map[string]string{
+		"x/leveragelp/keeper.Keeper.CheckAmmPoolUsdcBalance": "frozen: compares the REAL amm balance with what leveragelp positions could withdraw (hooks_amm.go), not a guard of a close",
+	})
 	R.Explanation = "Decided on every path: each call site of perpetual ForceCloseLong/ForceCloseShort and leveragelp ForceCloseLong lies in a frozen guarded function and is reached only under the matching guard " +
 		"(liquidation: health <= safety factor with health produced by Get*Health and the bound by GetSafetyFactor/Params.SafetyFactor; stop-loss: price <= stop (long / LP) or price >= stop (short); take-profit: price >= target (long) or <= (short)), " +
 		"using must-hold facts and, where a position discriminator re-merges, enumeration of acyclic paths with contradiction pruning; no other function calls them except the owner-keyed close; " +
